@@ -24,7 +24,12 @@ RULE = ("streams: wrapper = random small libraries (str / int / list / list-of-N
         "Cyrillic U+0400-U+04FF, minus exactly the single characters that pristine pylatexenc (called directly) does not "
         "round-trip (computed at run time), packed many per value in order and shuffled, bare / between ASCII letters / as "
         "space-separated words, under all five option combinations, placed in a field value, as NameParts words and in an "
-        "@string value; plus random texts as above drawing their accented letters from that whole alphabet. distinct = "
+        "@string value; plus random texts as above drawing their accented letters from that whole alphabet; protected regions (TEST) = "
+        "values with exactly ONE $...$ span whose body holds backslash-escaped TeX specials (\\$ \\% \\& \\{ \\} \\# \\_ , also doubled, first / "
+        "last in the body), the span being the whole value, at its very start, at its very end, in the middle, glued to letters / "
+        "accented letters / brackets / TeX specials, next to an escaped dollar OUTSIDE the span: bounded-exhaustive over (special x "
+        "body layout x context) and random, under all five option combinations, kept only when pristine pylatexenc (called "
+        "directly, computed at run time) round-trips the value both fully encoded and with the span kept verbatim. distinct = "
         "distinct (stream, input); non-trivial = some visited text is changed by the converter or fails")
 TRUSTED = ["pylatexenc (encoder tables, LaTeX parser) is NOT modelled: the round-trip clause of C18 is validated by testing only "
            "(stream roundtrip) - the proof-level claim is PARTIAL: scope, types, error containment and the conditional round trip "
@@ -163,6 +168,66 @@ def allowed_text(s):
     return not any(f in s for f in FORBIDDEN)
 
 
+# ---- protected regions: ONE $...$ span holding backslash-escaped specials (the delimiter itself included), at every position
+ESCAPED = ["\\$", "\\%", "\\&", "\\{", "\\}", "\\#", "\\_"]
+MATH_ATOMS = ["x", "y", "1", "5", "+", "=", "_", " ", "\\alpha", "\\frac{a}{b}", "{n}", "-", "\\,", "p", "<", "é"]
+BODY_LAYOUTS = ["%s", "a%sb", "%s5", "x%s", "a %s b", "%s%s", "p = %s3 + \\frac{a}{b}"]
+SPAN_CONTEXTS = ["%s", "%s tail", "head %s", "A fee of %s per page", "a%sb", "(%s)", "é%sü", "50%% & %s #1_{x}", "\\$5 and %s",
+                 "%s costs \\$5", "%s\nline", "~%s."]
+
+
+def protected_fixed(quick, rng):
+    """bounded-exhaustive: (escaped special x body layout x context); every option combination for the escaped delimiter"""
+    out = []
+    n = 0
+    for e in ESCAPED:
+        for lay in BODY_LAYOUTS:
+            for ctx in SPAN_CONTEXTS:
+                text = ctx % ("$" + lay.replace("%s", e) + "$")
+                n += 1
+                if e == "\\$" and (not quick or n % 2 == 0):
+                    opts = ENC_OPTS
+                elif quick:
+                    opts = [ENC_OPTS[n % len(ENC_OPTS)]] if n % 3 == 0 else []
+                else:
+                    opts = ENC_OPTS
+                out.extend((text, o) for o in opts)
+    return out
+
+
+def gen_protected_text(rng, accented=ACCENTED):
+    atoms = []
+    for _ in range(rng.choice([0, 1, 2, 3, 5])):
+        atoms.append(rng.choice(MATH_ATOMS) if rng.random() < 0.7 else rng.choice(ESCAPED))
+    atoms.insert(rng.choice([0, len(atoms), rng.randint(0, len(atoms))]), "\\$" if rng.random() < 0.6 else rng.choice(ESCAPED))
+    span = "$" + "".join(atoms) + "$"
+
+    def side():
+        segs = []
+        for _ in range(rng.choice([0, 0, 1, 2, 3])):
+            r = rng.random()
+            if r < 0.45:
+                pool = ASCII_LETTERS if rng.random() < 0.5 else accented
+                segs.append("".join(rng.choice(pool) for _ in range(rng.randint(1, 5))))
+            elif r < 0.55:
+                segs.append(str(rng.randint(0, 2050)))
+            elif r < 0.7:
+                segs.append(rng.choice(PUNCT))
+            elif r < 0.9:
+                segs.append(rng.choice(["&", "%", "#", "_", "{", "}", "~", "\\$", "\\%", "{x}"]))
+            else:
+                segs.append(rng.choice(["http://a.org/x", "www.ex.com", "\n", "\t"]))
+        return "".join(x + (" " if rng.random() < 0.5 else "") for x in segs)
+    left, right = side(), side()
+    if left.endswith("\\"):
+        left += " "
+    return left + span + right
+
+
+def unescaped_dollars(s):
+    return len(re.findall(r"(?<!\\)\$", s))
+
+
 ENC_OPTS = [[None, None], [True, True], [True, False], [False, True], [False, False]]
 
 
@@ -227,6 +292,16 @@ def generate(rng, tier):
             n_wide -= 1
             cases.append({"stream": "roundtrip", "input": {"kind": "roundtrip", "text": t, "opts": ENC_OPTS[n_wide % len(ENC_OPTS)], "drop": True,
                                                            "words": n_wide % 2 == 0}})
+    # protected regions: escaped specials inside ONE math span; "pristine" = kept only if pristine pylatexenc round-trips the value
+    for t, o in protected_fixed(quick, rng):
+        cases.append({"stream": "roundtrip", "input": {"kind": "roundtrip", "text": t, "opts": o, "pristine": True}})
+    n_prot = 250 if quick else 10000
+    while n_prot:
+        t = gen_protected_text(rng, ACCENTED if n_prot % 3 else SWEEP)
+        if allowed_text(t):
+            n_prot -= 1
+            cases.append({"stream": "roundtrip", "input": {"kind": "roundtrip", "text": t, "opts": ENC_OPTS[n_prot % len(ENC_OPTS)],
+                                                           "pristine": True, "drop": n_prot % 3 == 0, "words": n_prot % 4 == 0}})
     return cases
 
 
@@ -612,8 +687,55 @@ def third_party_not_injective():
     return _THIRD_PARTY_BAD
 
 
+_PRISTINE = None
+
+
+def split_math(text):
+    """[(is math span, piece)] by TeX's own reading: a backslash takes the next character with it, a bare dollar toggles math"""
+    out, cur, i, inm = [], "", 0, False
+    while i < len(text):
+        c = text[i]
+        if c == "\\" and i + 1 < len(text):
+            cur += text[i:i + 2]
+            i += 2
+            continue
+        i += 1
+        if c != "$":
+            cur += c
+        elif inm:
+            out.append((True, cur + "$"))
+            cur, inm = "", False
+        else:
+            if cur:
+                out.append((False, cur))
+            cur, inm = "$", True
+    if cur:
+        out.append((False, cur))
+    return out
+
+
+def pristine_roundtrips(text):
+    """does pristine pylatexenc (called directly, no repository code) round-trip the value - both when everything is encoded
+    (what keep_math=False asks for) and when the math spans are kept as they are and only the rest is encoded (keep_math=True),
+    decoded with math kept verbatim (the decoding middleware's default)?  Otherwise the value is outside the third party's reach"""
+    global _PRISTINE
+    if _PRISTINE is None:
+        from pylatexenc.latexencode import UnicodeToLatexEncoder
+        from pylatexenc.latex2text import LatexNodes2Text
+        _PRISTINE = (UnicodeToLatexEncoder(), LatexNodes2Text(), LatexNodes2Text(math_mode="verbatim"))
+    e, d, dv = _PRISTINE
+    try:
+        full = e.unicode_to_latex(text)
+        kept = "".join(p if m else e.unicode_to_latex(p) for m, p in split_math(text))
+        return d.latex_to_text(full) == text and dv.latex_to_text(full) == text and dv.latex_to_text(kept) == text
+    except Exception:  # noqa: BLE001
+        return False
+
+
 def rt_known_class(text, keep_math, enclose_urls):
-    if keep_math and text.count("$") >= 3:
+    # K5 = several spans: at least three dollars that can open / close a span; a backslash-escaped dollar is no delimiter (neither
+    # for the rule in latex_encoding.py nor for the decoder), so ONE span with \\$ inside is not of this class
+    if keep_math and unescaped_dollars(text) >= 3:
         return "K5"
     if enclose_urls:
         for rx in URL_RE:
@@ -639,7 +761,7 @@ def impl_roundtrip(case):
         text = "".join(c for c in text if c not in bad)
     words = [w for w in text.split(" ") if w] if inp.get("words") else []
     first = words or [text]
-    if any(c in bad for c in text) or not allowed_text(text):
+    if any(c in bad for c in text) or not allowed_text(text) or (inp.get("pristine") and not pristine_roundtrips(text)):
         rec["oracle"] = {"ok": True, "detail": ""}
         rec["tags"] = ["roundtrip:excluded-third-party-noninjective"]
         rec["nontrivial"] = False
@@ -682,6 +804,7 @@ def impl_roundtrip(case):
             rec["oracle"]["known"] = known
         rec["tags"] = ["roundtrip-fail:" + (known or "UNKNOWN")]
     else:
-        rec["tags"] = ["roundtrip:ok"] + (["roundtrip:letter-sweep"] if inp.get("drop") else [])
+        rec["tags"] = ["roundtrip:ok"] + (["roundtrip:letter-sweep"] if inp.get("drop") and not inp.get("pristine") else []) + \
+            (["roundtrip:escaped-special-inside-math"] if inp.get("pristine") else [])
     rec["summary"] = repr(mid[1])[:200]
     return rec
